@@ -309,6 +309,7 @@ def check_C13(chk, tier, seed):
 
 
 FAULTS = ["announce-leave", "malformed", "oversized", "zero-length", "stall-midframe", "stall-setup", "garbage-setup", "reset", "reset-midframe", "handler-panic", "handler-panic-sync", "handler-panic-fmt", "handler-panic-unwrap", "vanish-before-answer", "deep-nesting", "vendor-zero", "nest-30", "announce-stall", "exact-1mib", "reset-same-port", "unread-then-malformed", "partial-hello", "avp-length-zero", "flood-no-read"]
+SLOW_FAULTS = ["reset-storm"]          # (not drawn at random: 66 000 connections take several seconds)
 
 
 def check_C10(chk, tier, seed):
@@ -354,6 +355,8 @@ def check_C10(chk, tier, seed):
     for tls in (0, 1):
         cases.append(f"NET {tls} 3 3 {hx(rng.below(1 << 32))} 8 " + " ".join(["avp-length-zero"] * 8))
     cases.append(f"NET 1 3 3 {hx(rng.below(1 << 32))} 6 " + " ".join(["partial-hello"] * 6))
+    # one peer connecting and resetting 66 000 times (more connections than a 16-bit counter counts): the clients opened afterwards are served
+    cases.append(f"NET 0 4 3 {hx(rng.below(1 << 32))} 1 reset-storm")
     n = 12 if tier == "quick" else 400
     for k in range(n):
         r = rng.fork(f"n{k}")
